@@ -45,6 +45,23 @@ func checkC07(c *Ctx, r *Report) {
 		r.funcs[fnID(ci.do)] = true
 		c07Loop(c, r, ci, false)
 	}
+	// ---- R7.4: the recogniser consulted after every chunk must never claim a prefix of a normal
+	// reply (or a complete normal reply) as an exception: non-nil only for an exception frame
+	{
+		done := map[*ssa.Function]bool{}
+		for _, in := range installedFns(c) {
+			if in.asErr != nil && in.parse != nil && !done[in.asErr] {
+				done[in.asErr] = true
+				c02RecogniserCRC(c, r, "R7.4", in.asErr, crcIf(crc, in.rtu), !in.rtu, false)
+			}
+		}
+		r.floor("R7.4", 2)
+	}
+	// ---- R7.5: the total read timeout that bounds reassembly is a positive duration, taken from
+	// the configuration's read timeout when that is set
+	cfgStores(c, r, "R7.5", true, false)
+	cfgPassThrough(c, r, "R7.5", func(f *types.Var) bool { return isDuration(f.Type()) })
+	r.floor("R7.5", 8)
 	r.assumption("io.Reader contract 0 <= n <= len(p); errors.Is is an uninterpreted predicate of (error, target)")
 	r.assumption("reply length prescribed by the specification: framing (8 bytes TCP, 4 bytes RTU incl. CRC) + 1+ceil(q/8) (FC1/2), 1+2q (FC3/4/23), 4 (FC5/6/15/16); FC17 replies are device-specific")
 }
